@@ -404,11 +404,17 @@ func Gen(r *rand.Rand, o GenOpts) *World {
 	}
 	nwl := 1 + r.Intn(o.MaxWl)
 	sharedIn := map[string]bool{}
+	placeholderIn := map[string]bool{}
 	for i := 0; i < nwl; i++ {
 		wl := g.Workload(i)
 		if o.Shared && r.Intn(2) == 0 && !sharedIn[wl.NS] {
 			sharedIn[wl.NS] = true
 			wl.Name = "shared"
+		}
+		if r.Intn(12) == 0 && !placeholderIn[wl.NS] {
+			// a workload that happens to carry the name the tool uses for its ingress-controller placeholder pod
+			placeholderIn[wl.NS] = true
+			wl.Name = "ingress-controller"
 		}
 		w.Workloads = append(w.Workloads, wl)
 	}
